@@ -90,6 +90,35 @@ pub struct How {
     /// items, `reason_owned` for BYE after the other fields were set, `native_data_owned` for RPSI)
     #[serde(default)]
     pub owned: bool,
+    /// "measure, then go on configuring": query the size of the partially configured builder after
+    /// construction and after every list add, and set the padding last (after a size query). A builder
+    /// that remembers a size must forget it again when it is changed.
+    #[serde(default)]
+    pub probe: bool,
+}
+
+thread_local! {
+    static PROBE: std::cell::Cell<bool> = const { std::cell::Cell::new(false) };
+}
+
+fn probing() -> bool {
+    PROBE.with(|p| p.get())
+}
+
+/// size query on a partially configured packet builder (result ignored; an unwind is caught)
+fn pr<W: RtcpPacketWriter>(w: W) -> W {
+    if probing() {
+        let _ = guard(|| w.calculate_size().is_ok());
+    }
+    w
+}
+
+/// the same for FCI builders
+fn prf<'a, F: FciBuilder<'a>>(f: F) -> F {
+    if probing() {
+        let _ = guard(|| f.calculate_size().is_ok());
+    }
+    f
 }
 
 pub trait Visit {
@@ -108,22 +137,32 @@ fn rb(b: &RbSpec) -> ReportBlockBuilder {
 }
 
 pub fn sr(s: &SrSpec) -> SenderReportBuilder {
-    let mut b = SenderReport::builder(s.ssrc)
-        .padding(s.padding)
-        .ntp_timestamp(s.ntp)
-        .rtp_timestamp(s.rtp)
-        .packet_count(s.packet_count)
-        .octet_count(s.octet_count);
+    let mut b = SenderReport::builder(s.ssrc);
+    if !probing() {
+        b = b.padding(s.padding);
+    }
+    b = pr(b.ntp_timestamp(s.ntp).rtp_timestamp(s.rtp).packet_count(s.packet_count).octet_count(s.octet_count));
     for x in &s.blocks {
-        b = b.add_report_block(rb(x));
+        b = pr(b.add_report_block(rb(x)));
+    }
+    if probing() {
+        // junk first, then the real value: the last call wins, also when it clears the padding
+        b = pr(b.padding(s.padding ^ 4)).padding(s.padding);
     }
     b
 }
 
 pub fn rr(s: &RrSpec) -> ReceiverReportBuilder {
-    let mut b = ReceiverReport::builder(s.ssrc).padding(s.padding);
+    let mut b = ReceiverReport::builder(s.ssrc);
+    if !probing() {
+        b = b.padding(s.padding);
+    }
+    b = pr(b);
     for x in &s.blocks {
-        b = b.add_report_block(rb(x));
+        b = pr(b.add_report_block(rb(x)));
+    }
+    if probing() {
+        b = pr(b.padding(s.padding ^ 4)).padding(s.padding);
     }
     b
 }
@@ -137,51 +176,74 @@ pub fn item<'a>(it: &'a ItemSpec) -> SdesItemBuilder<'a> {
     }
 }
 
+/// the chunk builder's only public size query is a write
+fn pr_chunk<'a>(b: SdesChunkBuilder<'a>) -> SdesChunkBuilder<'a> {
+    if probing() {
+        let _ = guard(|| {
+            let mut scratch = [0u8; 64];
+            b.write_into(&mut scratch).is_ok()
+        });
+    }
+    b
+}
+
 pub fn chunk<'a>(c: &'a ChunkSpec) -> SdesChunkBuilder<'a> {
-    let mut b = SdesChunk::builder(c.ssrc);
+    let mut b = pr_chunk(SdesChunk::builder(c.ssrc));
     for it in &c.items {
-        b = b.add_item(item(it));
+        b = pr_chunk(b.add_item(item(it)));
     }
     b
 }
 
 /// the same configuration through the owned variants of the SDES API
 pub fn sdes_owned(s: &SdesSpec) -> SdesBuilder<'static> {
-    let mut b = Sdes::builder().padding(s.padding);
+    let mut b = pr(if probing() { Sdes::builder() } else { Sdes::builder().padding(s.padding) });
     for c in &s.chunks {
-        let mut cb = SdesChunk::builder(c.ssrc);
+        let mut cb = pr_chunk(SdesChunk::builder(c.ssrc));
         for (i, it) in c.items.iter().enumerate() {
-            cb = if i % 2 == 0 { cb.add_item_owned(item(it)) } else { cb.add_item(item(it).into_owned()) };
+            cb = pr_chunk(if i % 2 == 0 { cb.add_item_owned(item(it)) } else { cb.add_item(item(it).into_owned()) });
         }
-        b = b.add_chunk(cb);
+        b = pr(b.add_chunk(cb));
+    }
+    if probing() {
+        b = pr(b.padding(s.padding ^ 4)).padding(s.padding);
     }
     b
 }
 
 pub fn sdes<'a>(s: &'a SdesSpec) -> SdesBuilder<'a> {
-    let mut b = Sdes::builder().padding(s.padding);
+    let mut b = pr(if probing() { Sdes::builder() } else { Sdes::builder().padding(s.padding) });
     for c in &s.chunks {
-        b = b.add_chunk(chunk(c));
+        b = pr(b.add_chunk(chunk(c)));
+    }
+    if probing() {
+        b = pr(b.padding(s.padding ^ 4)).padding(s.padding);
     }
     b
 }
 
 pub fn bye<'a>(s: &'a ByeSpec) -> ByeBuilder<'a> {
-    let mut b = Bye::builder().padding(s.padding);
+    let mut b = pr(if probing() { Bye::builder() } else { Bye::builder().padding(s.padding) });
     for x in &s.sources {
-        b = b.add_source(*x);
+        b = pr(b.add_source(*x));
     }
     if let Some(r) = &s.reason {
-        b = b.reason(r.as_str());
+        if probing() {
+            b = pr(b.reason("measured before the real reason was set"));
+        }
+        b = pr(b.reason(r.as_str()));
+    }
+    if probing() {
+        b = pr(b.padding(s.padding ^ 4)).padding(s.padding);
     }
     b
 }
 
 /// `reason_owned` called last, after padding and sources were configured
 pub fn bye_owned(s: &ByeSpec) -> ByeBuilder<'static> {
-    let mut b = Bye::builder().padding(s.padding);
+    let mut b = pr(Bye::builder().padding(s.padding));
     for x in &s.sources {
-        b = b.add_source(*x);
+        b = pr(b.add_source(*x));
     }
     match &s.reason {
         Some(r) => b.reason_owned(r.clone()),
@@ -190,11 +252,11 @@ pub fn bye_owned(s: &ByeSpec) -> ByeBuilder<'static> {
 }
 
 pub fn app<'a>(s: &'a AppSpec) -> AppBuilder<'a> {
-    App::builder(s.ssrc, s.name.as_str()).subtype(s.subtype).data(&s.data).padding(s.padding)
+    pr(pr(App::builder(s.ssrc, s.name.as_str())).subtype(s.subtype).data(&s.data)).padding(s.padding)
 }
 
 pub fn unknown<'a>(s: &'a UnknownSpec) -> UnknownBuilder<'a> {
-    Unknown::builder(s.pt, &s.data).count(s.count).padding(s.padding)
+    pr(pr(Unknown::builder(s.pt, &s.data)).count(s.count)).padding(s.padding)
 }
 
 pub enum FciHolder<'a> {
@@ -208,27 +270,27 @@ pub enum FciHolder<'a> {
 pub fn fci<'a>(f: &'a FciSpec) -> FciHolder<'a> {
     match f {
         FciSpec::Nack(v) => {
-            let mut b = Nack::builder();
+            let mut b = prf(Nack::builder());
             for s in v {
-                b = b.add_rtp_sequence(*s);
+                b = prf(b.add_rtp_sequence(*s));
             }
             FciHolder::Nack(b)
         }
         FciSpec::Pli => FciHolder::Pli(Pli::builder()),
         FciSpec::Sli(v) => {
-            let mut b = Sli::builder();
+            let mut b = prf(Sli::builder());
             for (a, n, p) in v {
-                b = b.add_lost_macroblock(*a, *n, *p);
+                b = prf(b.add_lost_macroblock(*a, *n, *p));
             }
             FciHolder::Sli(b)
         }
         FciSpec::Rpsi { pt, data, overrun } => {
-            FciHolder::Rpsi(Rpsi::builder().payload_type(*pt).native_data(&data[..], *overrun))
+            FciHolder::Rpsi(prf(prf(Rpsi::builder()).payload_type(*pt)).native_data(&data[..], *overrun))
         }
         FciSpec::Fir(v) => {
-            let mut b = Fir::builder();
+            let mut b = prf(Fir::builder());
             for (s, q) in v {
-                b = b.add_ssrc(*s, *q);
+                b = prf(b.add_ssrc(*s, *q));
             }
             FciHolder::Fir(b)
         }
@@ -238,7 +300,7 @@ pub fn fci<'a>(f: &'a FciSpec) -> FciHolder<'a> {
 pub fn fci_static(f: &FciSpec) -> FciHolder<'static> {
     match f {
         FciSpec::Rpsi { pt, data, overrun } => {
-            FciHolder::Rpsi(Rpsi::builder().payload_type(*pt).native_data_owned(&data[..], *overrun))
+            FciHolder::Rpsi(prf(prf(Rpsi::builder()).payload_type(*pt)).native_data_owned(&data[..], *overrun))
         }
         FciSpec::Nack(_) => match fci(f) {
             FciHolder::Nack(b) => FciHolder::Nack(b),
@@ -276,7 +338,7 @@ pub fn tfb_owned(s: &FbSpec) -> TransportFeedbackBuilder<'static> {
         FciHolder::Rpsi(f) => TransportFeedback::builder_owned(f),
         FciHolder::Fir(f) => TransportFeedback::builder_owned(f),
     };
-    b.sender_ssrc(s.sender).media_ssrc(s.media).padding(s.padding)
+    pr(pr(b).sender_ssrc(s.sender).media_ssrc(s.media)).padding(s.padding)
 }
 
 pub fn pfb_owned(s: &FbSpec) -> PayloadFeedbackBuilder<'static> {
@@ -287,15 +349,15 @@ pub fn pfb_owned(s: &FbSpec) -> PayloadFeedbackBuilder<'static> {
         FciHolder::Rpsi(f) => PayloadFeedback::builder_owned(f),
         FciHolder::Fir(f) => PayloadFeedback::builder_owned(f),
     };
-    b.sender_ssrc(s.sender).media_ssrc(s.media).padding(s.padding)
+    pr(pr(b).sender_ssrc(s.sender).media_ssrc(s.media)).padding(s.padding)
 }
 
 pub fn tfb<'a>(s: &FbSpec, h: &'a FciHolder<'a>) -> TransportFeedbackBuilder<'a> {
-    TransportFeedback::builder(h.as_dyn()).sender_ssrc(s.sender).media_ssrc(s.media).padding(s.padding)
+    pr(pr(TransportFeedback::builder(h.as_dyn())).sender_ssrc(s.sender).media_ssrc(s.media)).padding(s.padding)
 }
 
 pub fn pfb<'a>(s: &FbSpec, h: &'a FciHolder<'a>) -> PayloadFeedbackBuilder<'a> {
-    PayloadFeedback::builder(h.as_dyn()).sender_ssrc(s.sender).media_ssrc(s.media).padding(s.padding)
+    pr(pr(PayloadFeedback::builder(h.as_dyn())).sender_ssrc(s.sender).media_ssrc(s.media)).padding(s.padding)
 }
 
 pub fn custom<const PT: u8, const MIN: usize>(c: &CustomSpec) -> CustomBuilder<PT, MIN> {
@@ -381,9 +443,9 @@ fn add_member<'a>(
             with_family!(c.family, PT, MIN, { cb.add_packet(custom::<PT, MIN>(c)) })
         }
         PacketSpec::Compound(v) => {
-            let mut inner = Compound::builder();
+            let mut inner = pr(Compound::builder());
             for x in v {
-                inner = add_member(inner, x, how, holders, next);
+                inner = pr(add_member(inner, x, how, holders, next));
             }
             cb.add_packet(inner)
         }
@@ -392,15 +454,26 @@ fn add_member<'a>(
 
 /// Build the crate's writer for `p` along the path `how` and hand it (with its concrete type) to `v`.
 pub fn with_writer<V: Visit>(p: &PacketSpec, how: How, v: V) -> V::Out {
+    struct Reset(bool);
+    impl Drop for Reset {
+        fn drop(&mut self) {
+            PROBE.with(|p| p.set(self.0));
+        }
+    }
+    let _reset = Reset(PROBE.with(|p| p.replace(how.probe)));
+    with_writer_inner(p, how, v)
+}
+
+fn with_writer_inner<V: Visit>(p: &PacketSpec, how: How, v: V) -> V::Out {
     if how.single_compound || matches!(p, PacketSpec::Compound(_)) {
         let mut holders = Vec::new();
         collect_holders(p, &mut holders);
         let mut next = 0usize;
         let cb = match p {
             PacketSpec::Compound(members) => {
-                let mut cb = Compound::builder();
+                let mut cb = pr(Compound::builder());
                 for m in members {
-                    cb = add_member(cb, m, how, &holders, &mut next);
+                    cb = pr(add_member(cb, m, how, &holders, &mut next));
                 }
                 cb
             }
